@@ -137,6 +137,7 @@ struct Planned {
 fn plan(b: &Burst) -> Planned {
     let mut messages = vec![session::request(1, "initialize", session::initialize_params(b.diagnostics)), session::notification("initialized", json!({}))];
     let mut model: Vec<Option<String>> = vec![None; b.n_uris];
+    let mut versions: Vec<i64> = vec![1; b.n_uris];
     let mut id = 1i64;
     let mut ids = vec![1];
     let mut expect_text = BTreeMap::new();
@@ -145,6 +146,7 @@ fn plan(b: &Burst) -> Planned {
         match op {
             Op::Open(u, text) => {
                 model[*u] = Some(text.clone());
+                versions[*u] = 1;
                 messages.push(session::notification("textDocument/didOpen", json!({ "textDocument": { "uri": URIS[*u], "languageId": "spl", "version": 1, "text": text } })));
             }
             Op::Close(u) => {
@@ -164,7 +166,7 @@ fn plan(b: &Burst) -> Planned {
                         None => json!({ "text": c.text }),
                     })
                     .collect();
-                messages.push(session::notification("textDocument/didChange", json!({ "textDocument": { "uri": URIS[*u], "version": 2 }, "contentChanges": cc })));
+                messages.push(session::notification("textDocument/didChange", json!({ "textDocument": { "uri": URIS[*u], "version": session::next_version(&mut versions[*u]) }, "contentChanges": cc })));
             }
             Op::ReadText(u) => {
                 id += 1;
